@@ -139,18 +139,24 @@ fn days_to_year(year: u64) -> u64 {
     (1970..year).map(|y| if (y % 4 == 0 && y % 100 != 0) || y % 400 == 0 { 366 } else { 365 }).sum()
 }
 
-struct G<'a> {
-    ctx: &'a mut Ctx,
+pub(crate) struct G<'a> {
+    pub(crate) ctx: &'a mut Ctx,
     eng: &'a mut dyn Engine,
     rng: Rng,
+    /// PRNG of the `rewidth` family (`Rng::new(seed ^ const)`: the older families keep their streams)
+    pub(crate) rng2: Rng,
     corpus: Vec<Vec<u8>>,
-    thorough: bool,
+    pub(crate) thorough: bool,
     /// op kinds of which one example went to the stats samples
     sampled: Vec<String>,
+    /// `rewidth` family totals: sender sessions, sender packets, packets re-encoded at other widths
+    pub(crate) sessions: usize,
+    pub(crate) packets: usize,
+    pub(crate) reencoded: usize,
 }
 
 impl<'a> G<'a> {
-    fn step(&mut self, op: &str) -> String {
+    pub(crate) fn step(&mut self, op: &str) -> String {
         let obs = self.ctx.step(&mut *self.eng, op);
         self.ctx.evaluations += 1;
         let kind = op.split(' ').nth(1).unwrap_or("?");
@@ -1248,13 +1254,20 @@ pub fn run(ctx: &mut Ctx, eng: &mut dyn Engine) {
                 micros {0,1,15624,15625,15626,499999,500000,999999,random}; malformed: ALL byte strings of length <= 2, 3-byte slice, every truncation, \
                 byte substitutions {00,ff,bit flips} and field-aware edits of a corpus of valid packets. Oracle: independent RFC decoder/encoder (rfcdec). \
                 non-trivial = distinct (width class, scheme, extension set) builds, distinct FTI / payload-id value tuples, distinct spec-built \
-                (scheme, widths, extension list) shapes, distinct malformed inputs passing the first length check"
+                (scheme, widths, extension list) shapes, distinct malformed inputs passing the first length check. \
+                rewidth: real Sender sessions (NoCode / RS28 / RS28 under-specified / RaptorQ / Raptor x TSI 16/32/48 bit x TOI max length 16..112 bit, \
+                in-band FTI on/off, FDT sender current time on/off, both profiles, cenc null + zlib/gzip/deflate, 1-3 objects of 0 / 1 / hundreds / \
+                thousands of bytes); every packet re-serialised by the independent encoder at other legal C/S/O/H flags (policies max, tsi48-toi112, \
+                cci128, min-hflip, random per packet) and pushed through a fresh real Receiver: delivered objects + FDT instances identical to the \
+                baseline reception, flute's parse identical except lengths/offsets; a subsample goes through ops `rewidth` + `parse` against the Lean \
+                model; non-trivial = distinct (scheme, policy, TSI class, TOI max length, in-band FTI) with a complete baseline and >= 1 packet changed"
         .split_whitespace()
         .collect::<Vec<_>>()
         .join(" ");
     let rng = Rng::new(ctx.seed);
     let thorough = ctx.tier_thorough;
-    let mut g = G { ctx, eng, rng, corpus: Vec::new(), thorough, sampled: Vec::new() };
+    let rng2 = Rng::new(ctx.seed ^ 0x5EED_0F1D_7C06);
+    let mut g = G { ctx, eng, rng, rng2, corpus: Vec::new(), thorough, sampled: Vec::new(), sessions: 0, packets: 0, reencoded: 0 };
     g.phase_lct();
     g.phase_pkt();
     g.phase_spec();
@@ -1262,4 +1275,5 @@ pub fn run(ctx: &mut Ctx, eng: &mut dyn Engine) {
     g.phase_close();
     g.phase_small();
     g.phase_mutate();
+    crate::rewidth::run(&mut g);
 }
